@@ -95,6 +95,7 @@ MUTATORS = {
         ("submpo: ends swapped", r"quimb/tensor/tn1d/core\.py$", r"^(\s+)info\[\"cur_orthog\"\] = \(sf, sf\)\s*$", r'\1info["cur_orthog"] = (si, si)'),
     ],
     "C09": [
+        ("axes list enumerates the given layout (inverse permutation)", r"quimb/tensor/tn1d/core\.py$", r"^(\s+)order = \[shape_given\.index\(x\) for x in shape_desired\]\s*$", r"\1order = [shape_desired.index(x) for x in shape_given]", r"^__init__$"),
         ("MPS stores the number of arrays", r"quimb/tensor/tn1d/core\.py$", r"^(\s+)self\._L = L\s*$", r"\1self._L = len(arrays)", r"^__init__$"),
         ("MPO chain closed at L", r"quimb/tensor/tn1d/core\.py$", r"^(\s+)if \(i \+ 1\) < num_sites or cyclic:\s*$", r"\1if (i + 1) < L or cyclic:", r"^from_fill_fn$"),
         ("identity MPO forgets L", r"quimb/tensor/tensor_builder\.py$", r"^(\s+)mpo_opts\[\"L\"\] = L\s*$", None),
